@@ -3,6 +3,7 @@ package rules
 import (
 	"fmt"
 	"go/token"
+	"go/types"
 	"sort"
 	"strings"
 
@@ -85,6 +86,24 @@ func (st *serTracer) bufOrder(ctx []ssa.CallInstruction, fn *ssa.Function, v ssa
 	case *ssa.Call:
 		if isBuiltin(x, "append") && len(x.Call.Args) == 2 {
 			base := st.bufOrder(ctx, fn, x.Call.Args[0], seen, depth+1)
+			// the appended operand is itself a small local buffer filled field by field
+			// (e.g. a fixed header array written with PutUintN at constant offsets)
+			if sl, ok := x.Call.Args[1].(*ssa.Slice); ok {
+				var local ssa.Value
+				switch y := sl.X.(type) {
+				case *ssa.Alloc:
+					if _, isArr := an.Deref(y.Type()).Underlying().(*types.Array); isArr {
+						local = y
+					}
+				case *ssa.MakeSlice:
+					local = y
+				}
+				if local != nil {
+					if toks := st.prealloc(ctx, fn, local); len(toks) >= 2 {
+						return append(base, toks...)
+					}
+				}
+			}
 			fs := st.fieldsOf(ctx, x.Call.Args[1])
 			if len(fs) > 0 {
 				base = append(base, serTok{Fields: fs, Pos: x.Pos()})
@@ -245,7 +264,12 @@ func (st *serTracer) prealloc(ctx []ssa.CallInstruction, fn *ssa.Function, buf s
 				}
 			case *ssa.Call:
 				if isBuiltin(r, "copy") && r.Call.Args[0] == addr {
-					if fs := st.fieldsOf(ctx, r.Call.Args[1]); len(fs) > 0 {
+					// a source that is itself a composed buffer contributes its own parts in order
+					if sub := st.bufOrder(ctx, fn, r.Call.Args[1], map[ssa.Value]bool{buf: true}, 1); len(sub) >= 2 {
+						for _, t := range sub {
+							ws = append(ws, w{t, order[r]})
+						}
+					} else if fs := st.fieldsOf(ctx, r.Call.Args[1]); len(fs) > 0 {
 						ws = append(ws, w{serTok{Fields: fs, Pos: r.Pos()}, order[r]})
 					}
 				}
@@ -258,7 +282,7 @@ func (st *serTracer) prealloc(ctx []ssa.CallInstruction, fn *ssa.Function, buf s
 		}
 	}
 	visit(buf, 0)
-	sort.Slice(ws, func(i, j int) bool { return ws[i].idx < ws[j].idx })
+	sort.SliceStable(ws, func(i, j int) bool { return ws[i].idx < ws[j].idx })
 	var out []serTok
 	for _, x := range ws {
 		out = append(out, x.tok)
@@ -272,8 +296,9 @@ func rpo(fn *ssa.Function) []*ssa.BasicBlock {
 	var dfs func(b *ssa.BasicBlock)
 	dfs = func(b *ssa.BasicBlock) {
 		seen[b] = true
-		for _, s := range b.Succs {
-			if !seen[s] {
+		// successors in reverse: a loop body then precedes the code after the loop in the result
+		for i := len(b.Succs) - 1; i >= 0; i-- {
+			if s := b.Succs[i]; !seen[s] {
 				dfs(s)
 			}
 		}
@@ -602,35 +627,55 @@ func (at *assignTracer) viaCallee(call *ssa.Call, obj ssa.Value, f string, c *ac
 	return out
 }
 
-// parAssignOrder orders the fields by the position of the parser step that assigns them.
-func parAssignOrder(p *an.Prog, parser *ssa.Function, fields []string) ([]string, map[string]string, []string) {
+// parOrder is the field order along one successful return of a parser.
+type parOrder struct {
+	order []string
+	pos   map[string]string
+	ties  []string
+}
+
+// parAssignOrders orders the fields by the position of the parser step that assigns them, once
+// per successful return of the parser (alternative formats are parsed on alternative paths and
+// their steps must not be mixed). Identical results are reported once.
+func parAssignOrders(p *an.Prog, parser *ssa.Function, fields []string) []parOrder {
 	at := newAssignTracer(p, parser)
-	pos := map[string]string{}
-	for _, f := range fields {
-		best := ""
-		for _, ret := range at.flow.OkReturns(parser) {
+	var out []parOrder
+	seen := map[string]bool{}
+	for _, ret := range at.flow.OkReturns(parser) {
+		pos := map[string]string{}
+		for _, f := range fields {
+			best := ""
 			for _, q := range at.fieldPos(ret.Results[0], f, &actx{fn: parser}, 0) {
 				if best == "" || q < best {
 					best = q
 				}
 			}
+			if best != "" {
+				pos[f] = best
+			}
 		}
-		if best != "" {
-			pos[f] = best
+		var got []string
+		for _, f := range fields {
+			if _, ok := pos[f]; ok {
+				got = append(got, f)
+			}
 		}
+		sort.SliceStable(got, func(i, j int) bool { return pos[got[i]] < pos[got[j]] })
+		var ties []string
+		for i := 1; i < len(got); i++ {
+			if pos[got[i-1]] == pos[got[i]] {
+				ties = append(ties, got[i-1]+"~"+got[i])
+			}
+		}
+		key := fmt.Sprint(got, pos)
+		if seen[key] {
+			continue
+		}
+		seen[key] = true
+		out = append(out, parOrder{got, pos, ties})
 	}
-	var got []string
-	for _, f := range fields {
-		if _, ok := pos[f]; ok {
-			got = append(got, f)
-		}
+	if len(out) == 0 {
+		out = append(out, parOrder{pos: map[string]string{}})
 	}
-	sort.SliceStable(got, func(i, j int) bool { return pos[got[i]] < pos[got[j]] })
-	var ties []string
-	for i := 1; i < len(got); i++ {
-		if pos[got[i-1]] == pos[got[i]] {
-			ties = append(ties, got[i-1]+"~"+got[i])
-		}
-	}
-	return got, pos, ties
+	return out
 }
